@@ -248,5 +248,7 @@ def _block_of(n: ast.AST) -> list[ast.stmt]:
 
 
 def _extra(ctx):
+    from ..engines.typestate import check_wrappers
+    check_wrappers(ctx, ['quantise_note_lengths'])
     from ..engines.structure import argmin_rule
     argmin_rule(ctx)
